@@ -69,7 +69,7 @@ def plan(tier, seed):
     jobs['seq'] = ('SeqNesting', dict(cfg='SeqNesting.cfg', workers=4), True)
     if tier == 'quick':
         jobs['rewrite-len3'] = ('ChainRewrite', dict(cfg='ChainRewrite_len3.cfg', workers=3), True)
-        jobs['seq-sim'] = ('SeqNesting', dict(cfg='SeqNesting_sim.cfg', simulate=dict(num=10), depth=8, seed=seed, workers=2, timeout=600), False)
+        jobs['seq-sim'] = ('SeqNesting', dict(cfg='SeqNesting_sim.cfg', simulate=dict(num=6), depth=6, seed=seed, workers=2, timeout=600), False)
         muts = [LOOKUP_MUTANTS[seed % len(LOOKUP_MUTANTS)]]
     else:
         jobs['rewrite-thorough'] = ('ChainRewrite', dict(cfg='ChainRewrite_thorough.cfg', workers=8, timeout=1500, heap='8g'), True)
@@ -101,7 +101,7 @@ def run(rep):
     jobs = plan(rep.tier, rep.seed)
     rep.constants['ChainRewrite'] = 'references of dimension <= 3 (simplices and tensor products); chains of <= {} items exhaustively{}'.format(
         '2 (<= 3 for dimension <= 2)' if quick else 3, '' if quick else ', <= 6 items by simulation')
-    rep.constants['SeqNesting'] = 'bases line/square/cube (periodic variants), Index with simplex/mixed/prism references; <= {} topology operations, <= {} wrappers exhaustively; simulation to 2 operations + 4 wrappers; <= 16 elements; tails of <= 2 items'.format(*((1, 1) if quick else (2, 2)))
+    rep.constants['SeqNesting'] = 'bases line/square/cube (periodic variants), Index with simplex/mixed/prism references; <= {} topology operations, <= {} wrappers exhaustively; simulation to 2 operations + 3 wrappers; <= 16 elements; tails of <= 2 items'.format(*((1, 1) if quick else (2, 2)))
 
     # ---- all TLC runs concurrently; the table export and the recording of real topologies happen meanwhile
     with concurrent.futures.ThreadPoolExecutor(max_workers=len(jobs) + 3) as pool:
